@@ -516,6 +516,7 @@ func registerIntrinsics(P *Program) {
 	}
 
 	registerReflect(P)
+	registerSynth(P)
 }
 
 type flagAux struct{ on bool }
@@ -833,6 +834,15 @@ func registerReflect(P *Program) {
 		m.raise(fault("panic", "reflect: call of reflect.Value.Pointer on %s Value", rv.T))
 		return nil
 	}
+	I["reflect.PointerTo"] = func(m *Machine, fn *ssa.Function, args []Value) Value {
+		tt := args[0].(IfaceVal).V.(TypeTok)
+		return m.typeIface(types.NewPointer(tt.T))
+	}
+	I["reflect.PtrTo"] = I["reflect.PointerTo"]
+	I["reflect.SliceOf"] = func(m *Machine, fn *ssa.Function, args []Value) Value {
+		tt := args[0].(IfaceVal).V.(TypeTok)
+		return m.typeIface(types.NewSlice(tt.T))
+	}
 	I["reflect.New"] = func(m *Machine, fn *ssa.Function, args []Value) Value {
 		tt := args[0].(IfaceVal).V.(TypeTok)
 		o := m.w.Alloc(sizeof(tt.T), "reflect.New "+typeString(tt.T))
@@ -859,7 +869,7 @@ func registerReflect(P *Program) {
 		return ReflVal{T: tt.T, V: m.newMap(mt)}
 	}
 	I["(reflect.StructTag).Get"] = func(m *Machine, fn *ssa.Function, args []Value) Value {
-		if sv, ok := args[0].(SynthTag); ok {
+		if sv, ok := m.synthTagOf(args[0]); ok {
 			key := m.mustGoString(args[1], "tag key")
 			if v, ok := sv.Keys[key]; ok {
 				return v
